@@ -91,7 +91,7 @@ fn prepared(rep: &Reporter) {
             for b in 0..OBJ.len() {
                 for k in 0..KIN.len() {
                     for bu in 0..BUF.len() {
-                        for tw in 0..3 {
+                        for tw in 0..4 {
                             cells.push((op, a, b, k, bu, tw));
                         }
                     }
@@ -118,7 +118,9 @@ fn prepared(rep: &Reporter) {
 
 fn run_prepared(rep: &Reporter, op: usize, o_react: f64, o_prod: f64, kin: f64, buffer: f64, tw: usize, seed: u64) {
     // tw: 0 = all individuals distinct, 1 = index 3 is an identical twin of reactant 2,
-    // 2 = the two reactants themselves are identical individuals
+    // 2 = the two reactants themselves are identical individuals,
+    // 3 = index 0 has the same SOLUTION as reactant 1 but another objective value (as a noisy objective produces):
+    //     a different individual, so nothing changes with respect to tw = 0
     let twins = tw != 0;
     // main population: 4 molecules; index 1 (and 2) are the reactants; with `twins`, index 3 is an
     // identical twin of reactant 2 (same solution and objective)
@@ -130,6 +132,9 @@ fn run_prepared(rep: &Reporter, op: usize, o_react: f64, o_prod: f64, kin: f64, 
     }
     if tw == 2 {
         main[2] = main[1].clone();
+    }
+    if tw == 3 {
+        main[0] = tagged(11, Some(7.0));
     }
     let kes = [0.25, kin, 2.0 * kin + 0.125, 3.5, 6.25];
     let molecules: Vec<Molecule<TagP>> = main.iter().zip(kes.iter()).map(|(i, k)| Molecule::new(*k, i.clone())).collect();
@@ -154,7 +159,7 @@ fn run_prepared(rep: &Reporter, op: usize, o_react: f64, o_prod: f64, kin: f64, 
     let before = snap(&st, 2, h);
     let r = catch(|| comp.execute(&TagP, &mut st).map_err(|e| format!("{e:#}")));
     rep.case();
-    let case = || json!({"operator": name, "reactant_objective": o_react, "product_objective": o_prod, "reactant_kinetic_energy": kin, "buffer": buffer, "identical_twin_in_population": twins, "seed": seed});
+    let case = || json!({"operator": name, "reactant_objective": o_react, "product_objective": o_prod, "reactant_kinetic_energy": kin, "buffer": buffer, "identical_twin_in_population": twins, "twin_kind (1 twin of reactant 2, 2 identical reactants, 3 same solution with another objective value)": tw, "seed": seed});
     match r {
         Ok(Ok(())) => {}
         other => {
@@ -232,9 +237,92 @@ fn run_prepared(rep: &Reporter, op: usize, o_react: f64, o_prod: f64, kin: f64, 
 #[derive(Default)]
 struct Rec {
     before: Option<Snap>,
+    /// what the last update of this reaction system left behind: its molecules and their records belong to it alone
+    last_after: Option<Snap>,
     updates: u64,
     accepted: u64,
     violations: Vec<(String, String)>,
+}
+
+#[derive(Default)]
+struct Recs {
+    by_depth: std::collections::BTreeMap<usize, Rec>,
+    closed: Vec<Rec>,
+}
+
+/// Step-observer body shared by template runs and harness-assembled variants.
+fn observe_cro<P: Instrumented>(recs: &Mutex<Recs>, ev: StepEvent<'_, P>, state: &State<P>) {
+    let StepEvent::BlockChild { before, component, .. } = ev else { return };
+    let name = mv::sniff::name_of(component);
+    let depth = mv::observe::scope_depth(state);
+    let mut all = recs.lock().unwrap();
+    let gone: Vec<usize> = all.by_depth.keys().copied().filter(|d| *d > depth).collect();
+    for d in gone {
+        let r = all.by_depth.remove(&d).unwrap();
+        all.closed.push(r);
+    }
+    let r = all.by_depth.entry(depth).or_default();
+    if name == "ChemicalReactionInit" {
+        // a (re-)initialisation creates fresh records for the current population
+        r.last_after = None;
+        if !before {
+            let pops = state.populations();
+            let n = pops.get_current().map(|c| c.len()).unwrap_or(0);
+            let m = state.borrow::<ChemicalReaction<P>>().len();
+            if n != m {
+                r.violations.push(("ChemicalReactionInit:molecule-records-and-population-differ-in-length".into(), format!("{n} individuals, {m} molecule records after the initialisation")));
+            }
+        }
+        return;
+    }
+    if !name.ends_with("Update") || name == "BestIndividualUpdate" || !name.contains("Collision") && !name.contains("Decomposition") && !name.contains("Synthesis") {
+        return;
+    }
+    if before {
+        let b = snap(state, 2, |s| P::sol_hash(s));
+        if b.height >= 3 {
+            if b.pop.len() != b.mol.len() {
+                r.violations.push(("between-updates:molecule-records-and-population-differ-in-length".into(), format!("before {name}: {} individuals, {} molecule records", b.pop.len(), b.mol.len())));
+            } else if let Some(last) = &r.last_after {
+                let same_pop = last.pop.len() == b.pop.len() && last.pop.iter().zip(&b.pop).all(|(x, y)| x.0 == y.0 && x.1.to_bits() == y.1.to_bits());
+                let same_mol = last.mol.len() == b.mol.len() && last.mol.iter().zip(&b.mol).all(|(x, y)| x.0.to_bits() == y.0.to_bits() && x.1 == y.1 && x.2.to_bits() == y.2.to_bits());
+                if !same_pop || !same_mol || last.buffer.to_bits() != b.buffer.to_bits() {
+                    r.violations.push(("between-updates:molecules-records-or-buffer-changed-by-something-else".into(), format!("before {name}: population / records / buffer differ from what the previous reaction update left (population same: {same_pop}, records same: {same_mol}, buffer {} -> {})", last.buffer, b.buffer)));
+                }
+            }
+        }
+        r.before = Some(b);
+    } else if let Some(b) = r.before.take() {
+        let a = snap(state, 0, |s| P::sol_hash(s));
+        r.updates += 1;
+        if a.pop != b.pop {
+            r.accepted += 1;
+        }
+        let v = judge(&name, &b, &a);
+        r.violations.extend(v);
+        r.last_after = Some(a);
+    }
+}
+
+fn report_cro(rep: &Reporter, recs: &Mutex<Recs>, prefix: &str, meta: serde_json::Value) -> (u64, u64) {
+    let mut all = recs.lock().unwrap();
+    let by_depth = std::mem::take(&mut all.by_depth);
+    let closed = std::mem::take(&mut all.closed);
+    rep.count("nested_reaction_systems_observed", closed.len() as u64);
+    let (mut updates, mut accepted) = (0, 0);
+    let mut seen = std::collections::HashSet::new();
+    for r in by_depth.into_values().chain(closed) {
+        updates += r.updates;
+        accepted += r.accepted;
+        for (sig, msg) in &r.violations {
+            if seen.insert(sig.clone()) {
+                rep.violation(&format!("{prefix}:{sig}"), json!({"meta": meta, "observed": msg}));
+            }
+        }
+    }
+    rep.count("template_reaction_updates_observed", updates);
+    rep.count("template_reactions_accepted", accepted);
+    (updates, accepted)
 }
 
 struct V<'r> {
@@ -246,47 +334,99 @@ impl<'r> TemplateVisitor for V<'r> {
         P: Instrumented + KnownOptimumProblem,
     {
         let rep = self.rep;
-        let rec = Mutex::new(Rec::default());
-        let _ = mv::observe::run_observed(&cfg, problem, meta.seed, false, None, |ev, _p, state| {
-            if let StepEvent::BlockChild { before, component, .. } = ev {
-                let name = mv::sniff::name_of(component);
-                if !name.ends_with("Update") || name == "BestIndividualUpdate" {
-                    return;
-                }
-                let mut r = rec.lock().unwrap();
-                if before {
-                    r.before = Some(snap(state, 2, |s| P::sol_hash(s)));
-                } else if let Some(b) = r.before.take() {
-                    let a = snap(state, 0, |s| P::sol_hash(s));
-                    r.updates += 1;
-                    if a.pop != b.pop {
-                        r.accepted += 1;
-                    }
-                    let v = judge(&name, &b, &a);
-                    r.violations.extend(v);
-                }
-            }
-        });
+        let rec = Mutex::new(Recs::default());
+        let _ = mv::observe::run_observed(&cfg, problem, meta.seed, false, None, |ev, _p, state| observe_cro(&rec, ev, state));
         rep.case();
         rep.nontrivial(hash_of(&(&meta.params, &meta.instance, meta.n, meta.seed)));
-        let r = rec.lock().unwrap();
-        rep.count("template_reaction_updates_observed", r.updates);
-        rep.count("template_reactions_accepted", r.accepted);
-        let mut seen = std::collections::HashSet::new();
-        for (sig, msg) in &r.violations {
-            if seen.insert(sig.clone()) {
-                rep.violation(&format!("template:{sig}"), json!({"meta": meta, "observed": msg}));
-            }
+        let (updates, accepted) = report_cro(rep, &rec, "template", json!(meta));
+        if rep.want_sample() && updates > 10 {
+            rep.sample(json!({"meta": meta, "reaction_updates": updates, "accepted": accepted}));
         }
-        if rep.want_sample() && r.updates > 10 {
-            rep.sample(json!({"meta": meta, "reaction_updates": r.updates, "accepted": r.accepted}));
+    }
+}
+
+/// Harness-assembled reaction systems on a real-valued problem: (0) the generic `cro` loop as the body of an outer loop
+/// (epochs: the initialisation component executes again at the start of every epoch), (1) a second, small reaction system
+/// run to completion inside a scope whenever the outer one repairs its products.
+fn assembled(rep: &Reporter, n: usize) {
+    use mahf::{
+        components::{boundary, initialization, mutation, recombination, selection, utils, Block, Scope},
+        conditions::{self, LessThanN, RandomChance},
+        heuristics::cro,
+        identifier::{Global, A, B},
+    };
+    use mv::problems::{Real, RealFn};
+    #[derive(Clone, serde::Serialize)]
+    struct PopTop;
+    impl Component<Real> for PopTop {
+        fn execute(&self, _p: &Real, state: &mut State<Real>) -> mahf::ExecResult<()> {
+            state.populations_mut().pop();
+            Ok(())
+        }
+    }
+    let params = |ke: f64, buffer: f64, constraints: Box<dyn Component<Real>>| cro::Parameters::<Real> {
+        mole_coll: 0.5,
+        kinetic_energy_lr: 0.3,
+        initial_kinetic_energy: ke,
+        buffer,
+        single_mole_selection: selection::RandomWithoutRepetition::new(1),
+        decomposition_criterion: conditions::cro::DecompositionCriterion::new(3),
+        decomposition: Block::new([utils::populations::DuplicatePopulation::new(), mutation::NormalMutation::<A>::new_with_id(0.3, 0.5)]),
+        on_wall_ineffective_collision: mutation::NormalMutation::<B>::new_with_id(0.1, 1.0),
+        double_mole_selection: selection::RandomWithoutRepetition::new(2),
+        synthesis_criterion: conditions::cro::SynthesisCriterion::new(2.0),
+        synthesis: recombination::UniformCrossover::new_insert_single(1.),
+        intermolecular_ineffective_collision: mutation::UniformMutation::new_bound(1.),
+        constraints,
+    };
+    let mut rng = mv::SplitMix64::new(rep.seed).fork(0xC20_A);
+    for k in 0..n {
+        let problem = Real::new(1 + rng.usize(3), -2.0, 3.0, *rng.pick(&[RealFn::Sphere, RealFn::Rastrigin, RealFn::ShiftedSphere]));
+        let size = 2 + rng.below(6) as u32;
+        let seed = rng.below(1 << 40);
+        let (kind, cfg): (&str, Configuration<Real>) = if k % 2 == 0 {
+            (
+                "epochs",
+                Configuration::builder()
+                    .do_(initialization::RandomSpread::new(size))
+                    .evaluate()
+                    .update_best_individual()
+                    .while_(LessThanN::iterations(60), |b| b.do_(cro::cro::<Real, Global>(params(10.0, 5.0, boundary::Saturation::new()), RandomChance::new(0.8))))
+                    .build(),
+            )
+        } else {
+            let inner = Scope::new(vec![
+                initialization::RandomSpread::new(2 + rng.below(3) as u32),
+                mahf::components::evaluation::PopulationEvaluator::new(),
+                cro::cro::<Real, Global>(params(1.0, 0.5, boundary::Saturation::new()), LessThanN::iterations(1 + rng.below(4) as u32)),
+                Box::new(PopTop) as Box<dyn Component<Real>>,
+            ]);
+            (
+                "nested-in-a-scope",
+                Configuration::builder()
+                    .do_(initialization::RandomSpread::new(size))
+                    .evaluate()
+                    .update_best_individual()
+                    .do_(cro::cro::<Real, Global>(params(10.0, 5.0, Block::new([boundary::Saturation::new(), inner])), LessThanN::iterations(25)))
+                    .build(),
+            )
+        };
+        let rec = Mutex::new(Recs::default());
+        let res = mv::observe::run_observed(&cfg, &problem, seed, false, None, |ev, _p, state| observe_cro(&rec, ev, state));
+        rep.case();
+        rep.nontrivial(hash_of(&("assembled", k)));
+        rep.count("assembled_runs", 1);
+        let meta = json!({"kind": kind, "population": size, "seed": seed, "dimension": problem.domains.len(), "objective": format!("{:?}", problem.f)});
+        report_cro(rep, &rec, &format!("assembled:{kind}"), meta.clone());
+        if !matches!(res, Ok(Ok(_))) {
+            rep.violation(&format!("assembled:{kind}:run-failed"), json!({"meta": meta, "result": format!("{:?}", res.map(|r| r.map(|_| ())))}));
         }
     }
 }
 
 fn main() {
     let rep = Reporter::from_args("C20");
-    rep.rule("(a) each of the four reaction updates on prepared three-population states (a main population of 5 molecules with unique kinetic energies as fingerprints, optionally containing an identical twin of a reactant; reactant and product populations on top) over reactant/product objective values {-5,0,.5,3,40}^2 x kinetic energies {0,.1,5,100} x buffers {0,1,1000} x seeds; (b) every reaction update of real_cro runs observed at the step-observer hook. Per update: sum of objective values + kinetic energies + buffer unchanged within 1e-9 relative, no negative kinetic energy or buffer, one molecule record per individual with record i belonging to individual i (best memory never worse than the individual; in (a) also which slot was replaced / appended / removed and that records of uninvolved molecules did not move), stack height reduced by exactly two also when the reaction is rejected; in (a) acceptance as the energies dictate. distinct_nontrivial = distinct prepared cells + distinct template runs");
+    rep.rule("(a) each of the four reaction updates on prepared three-population states (a main population of 5 molecules with unique kinetic energies as fingerprints, optionally containing an identical twin of a reactant, or an individual with a reactant's solution but another objective value; reactant and product populations on top) over reactant/product objective values {-5,0,.5,3,40}^2 x kinetic energies {0,.1,5,100} x buffers {0,1,1000} x seeds; (b) every reaction update of real_cro runs and of harness-assembled systems (the generic cro loop as the body of an outer loop, so that its initialisation executes again every epoch; a second reaction system run to completion inside a scope in the middle of the outer one's reactions; records per scope depth) observed at the step-observer hook; between two updates of a system its population, records and buffer are bit-identical and aligned. Per update: sum of objective values + kinetic energies + buffer unchanged within 1e-9 relative, no negative kinetic energy or buffer, one molecule record per individual with record i belonging to individual i (best memory never worse than the individual; in (a) also which slot was replaced / appended / removed and that records of uninvolved molecules did not move), stack height reduced by exactly two also when the reaction is rejected; in (a) acceptance as the energies dictate. distinct_nontrivial = distinct prepared cells + distinct template runs");
     rep.assume("finite objective values; the main population is the third population from the top when an update starts");
     prepared(&rep);
     let cases: Vec<_> = templates::cases(false, rep.seed, rep.tier.pick(8, 300)).into_iter().filter(|c| c.tmpl == Tmpl::Cro && c.n > 0).collect();
@@ -306,6 +446,7 @@ fn main() {
         }
     });
     rep.count("template_runs", n as u64);
+    assembled(&rep, rep.tier.pick(200, 20_000));
     if rep.counter("prepared_reactions_accepted") == 0 || rep.counter("prepared_reactions_rejected") == 0 {
         rep.inconclusive("prepared reactions did not produce both accepted and rejected outcomes");
     }
